@@ -8,5 +8,5 @@ c_OpSet == {"gmean", "gvar"}
 c_LogLeaves == FALSE
 c_PosLeaves == TRUE
 c_EmitMod == 2
-c_EmitRes == 1
+c_EmitRes == 0
 ====
